@@ -396,7 +396,10 @@ fn gen_client_op(g: &mut G, k: &Knobs, c: usize, n_actors: usize, own: &mut Vec<
                 2 => Op::Ask { h, m: gen_msg(g, k, a, n_actors, 0, false) },
                 _ => Op::AskT { h, m: gen_msg(g, k, a, n_actors, 0, false), ms: g.pick(&k.timeouts) },
             };
-            if g.chance(500) {
+            if g.chance(150) {
+                // the call is made, the future is dropped without ever being polled: nothing may happen
+                Op::Unpolled(Box::new(if g.chance(150) { Op::Stop { h } } else { inner }))
+            } else if g.chance(500) {
                 Op::Cancel { op: Box::new(inner), polls: g.range(1, 2) as u32, ms: None }
             } else {
                 Op::Cancel { op: Box::new(inner), polls: 0, ms: Some(g.pick(&k.sleeps)) }
